@@ -887,8 +887,11 @@ class Interp:
         fid = c.get("fid")
         if op == "=" and "obj" in e and fid not in self.F.by_fid and len(e.get("args", [])) == 1:
             tgt = self.evl(e["obj"], env)
-            tv = self.load(tgt) if isinstance(tgt, Ref) else tgt
             src = self.ev(e["args"][0], env)
+            if isinstance(tgt, Ref) and tgt.kind == "structelem" and isinstance(src, Struct):
+                self.assign(tgt, src, e)          # element of an array of structs: member-wise into the field arrays
+                return tgt
+            tv = self.load(tgt) if isinstance(tgt, Ref) else tgt
             if isinstance(tv, Struct) and isinstance(src, Struct):
                 self.assign(tv, src, e)
                 return tv
@@ -920,6 +923,12 @@ class Interp:
     def call_repo(self, f, e, env):
         if self.depth > 12:
             raise Unsupported("call depth")
+        if f.get("kind") in ("copyassign", "moveassign") and "obj" in e and len(e.get("args", [])) == 1 and (f.get("body") is None or f.get("implicit") or not (f.get("body") or {}).get("body")):
+            # compiler-generated assignment of a plain struct: member-wise
+            tgt = self.evl(e["obj"], env)
+            val = self.ev(e["args"][0], env)
+            self.assign(tgt, val, e)
+            return tgt
         # arguments and the object expression are evaluated in the caller's context
         env2 = {}
         for p, a in zip(f["params"], e.get("args", [])):
@@ -1551,6 +1560,18 @@ class Interp:
             finally:
                 self.range_count = None
             self.effects_ranges.append((r.cont.name, r.start, r.count, v.vec, node.get("line") if isinstance(node, dict) else None))
+            return
+        if k == "structelem":
+            if not isinstance(v, Struct):
+                raise Unsupported("struct element assigned from %s" % type(v).__name__)
+            for fld, x in v.f.items():
+                if fld not in r.cont.sub:
+                    raise Unsupported("struct element has no field " + fld)
+                sub = r.cont.sub[fld]
+                if isinstance(x, (Struct, Container)):
+                    raise Unsupported("nested aggregate stored into a struct element")
+                sub.write(tuple(r.key), x)
+                self.record(sub.name, tuple(sp.sympify(k_) for k_ in r.key), "=", x, node)
             return
         if k == "scalrange":
             if isinstance(v, BlockVec) and v.r == 1:
